@@ -2,5 +2,6 @@ SPECIFICATION Spec
 CONSTANTS L = 3
  CLASSES = {"val","pre","bin","comma","term","sep","suf"}
  SEPS = {"blank","annot"}
+ BALANCED = FALSE
 INVARIANT Emit
 CHECK_DEADLOCK FALSE
